@@ -22,7 +22,7 @@
 (*    whist, wmean, wvar, werri, werr2, wymean, wyvar, wyerri, wyerr2 :            *)
 (*        Seq(observed real), one per bin (<<>> when the key is absent)]           *)
 (* Observed reals are the records of Stats.tla ([k : "rat"|"off"|"nan"|"sent",     *)
-(* n, d]); deviations are recorded SQUARED (var = std^2, err2 = err^2,             *)
+(* n, d], extended below by "ivl"); deviations are recorded SQUARED (var = std^2, err2 = err^2,             *)
 (* werri = werr^2 in units of 1/weight, werr2 = (werr2)^2).                        *)
 (*                                                                                 *)
 (* The statistics of a bin are judged against the members THE RETURNED REVERSE     *)
@@ -37,6 +37,16 @@ CONSTANT StrictOneMember   \* FALSE: the weighted error estimates of a ONE-membe
 BRat(q) == [k |-> "rat", n |-> q[1], d |-> q[2]]
 BSent   == [k |-> "sent", n |-> 0, d |-> 1]
 BZero   == <<0, 1>>
+
+\* An observed real is either the snapped lattice rational of Stats.tla ("rat") or - on the
+\* large-offset lattices, where the tolerance the statement grants ("to rounding", relative to
+\* the magnitude of the operands, offset included) is wider than the gap between candidate
+\* rationals - the INTERVAL [n/BIvlK, d/BIvlK] = observation -/+ tolerance, rounded outward
+\* ("ivl"); the exact expectation must lie inside.
+BIvlK == 256
+BObsEq(r, e) == \/ SObsEq(r, e)
+                \/ (r.k = "ivl" /\ r.n * e[2] <= e[1] * BIvlK /\ e[1] * BIvlK <= r.d * e[2])
+BObsIn(r, E) == \E e \in E : BObsEq(r, e)
 
 \* ---- equal-occupancy binning: the partition the statement describes ----------------
 \* n data inside the limits, nper per bin: ceil(n/nper) bins of consecutive sorted data,
@@ -79,12 +89,12 @@ BPlainFailing(pre, v, P, m, va, e2, md) ==
     IN IF n = 0
        THEN (IF m.k = "sent" THEN {} ELSE {pre \o "mean_of_empty_bin_not_sentinel"}) \cup
             (IF \A r \in {va, e2, md} : r.k \in {"sent", "nan"} THEN {} ELSE {pre \o "stat_of_empty_bin"})
-       ELSE (IF SObsEq(m, SMean(v, ones, P)) THEN {} ELSE {pre \o "mean"}) \cup
-            (IF n = 1 THEN (IF SObsEq(va, BZero) \/ va.k = "nan" THEN {} ELSE {pre \o "std"})
-             ELSE IF SObsIn(va, {BVarPop(v, P), BVarSamp(v, P)}) THEN {} ELSE {pre \o "std"}) \cup
-            (IF SObsEq(md, SMedian(v, P)) THEN {} ELSE {pre \o "median"}) \cup
+       ELSE (IF BObsEq(m, SMean(v, ones, P)) THEN {} ELSE {pre \o "mean"}) \cup
+            (IF n = 1 THEN (IF BObsEq(va, BZero) \/ va.k = "nan" THEN {} ELSE {pre \o "std"})
+             ELSE IF BObsIn(va, {BVarPop(v, P), BVarSamp(v, P)}) THEN {} ELSE {pre \o "std"}) \cup
+            (IF BObsEq(md, SMedian(v, P)) THEN {} ELSE {pre \o "median"}) \cup
             (IF n = 1 THEN {}
-             ELSE IF SObsIn(e2, {RDiv(BVarPop(v, P), RInt(n)), RDiv(BVarSamp(v, P), RInt(n))}) THEN {} ELSE {pre \o "err"})
+             ELSE IF BObsIn(e2, {RDiv(BVarPop(v, P), RInt(n)), RDiv(BVarSamp(v, P), RInt(n))}) THEN {} ELSE {pre \o "err"})
 
 \* weighted quantities of variable v with weights w, exactly as the docstrings of
 \* histogram() / wmom() define them:
@@ -94,15 +104,15 @@ BWtFailing(pre, v, w, P, m, va, ei, e2) ==
     LET n == Cardinality(P)
     IN IF n = 0
        THEN (IF \A r \in {m, va, ei, e2} : r.k \in {"sent", "nan"} THEN {} ELSE {pre \o "stat_of_empty_bin"})
-       ELSE (IF SObsEq(m, SMean(v, w, P)) THEN {} ELSE {pre \o "mean"}) \cup
-            (IF SObsEq(va, SVar(v, w, P)) THEN {} ELSE {pre \o "std"}) \cup
+       ELSE (IF BObsEq(m, SMean(v, w, P)) THEN {} ELSE {pre \o "mean"}) \cup
+            (IF BObsEq(va, SVar(v, w, P)) THEN {} ELSE {pre \o "std"}) \cup
             (IF n = 1 /\ ~StrictOneMember THEN {}
-             ELSE (IF SObsEq(ei, SErr2Inv(w, P)) THEN {} ELSE {pre \o "err"}) \cup
-                  (IF SObsEq(e2, SErr2Calc(v, w, P, SMean(v, w, P))) THEN {} ELSE {pre \o "err2"}))
+             ELSE (IF BObsEq(ei, SErr2Inv(w, P)) THEN {} ELSE {pre \o "err"}) \cup
+                  (IF BObsEq(e2, SErr2Calc(v, w, P, SMean(v, w, P))) THEN {} ELSE {pre \o "err2"}))
 
 BWhistFailing(w, P, r) ==
-    IF P = {} THEN (IF SObsEq(r, BZero) \/ r.k = "sent" THEN {} ELSE {"whist_of_empty_bin"})
-    ELSE IF SObsEq(r, RInt(SSumW(w, P))) THEN {} ELSE {"whist"}
+    IF P = {} THEN (IF BObsEq(r, BZero) \/ r.k = "sent" THEN {} ELSE {"whist_of_empty_bin"})
+    ELSE IF BObsEq(r, RInt(SSumW(w, P))) THEN {} ELSE {"whist"}
 
 \* the statistics the observation must carry, given its flags
 BStatFields(o) ==
@@ -131,9 +141,9 @@ BBinSize(c) == IF c.mode = "binsize" THEN RInt(c.b) ELSE RNorm(Hi(c) - Lo(c), c.
 BLow(c, i)  == RAdd(RInt(Lo(c)), RMul(RInt(i), BBinSize(c)))                  \* i = 0, 1, ...
 BEdgesFailing(c, o, nb) ==
     IF ~BShapeOK(nb, {o.low, o.high, o.center}) THEN {"edges_missing_or_misshapen"}
-    ELSE (IF \A i \in 1..nb : SObsEq(o.low[i], BLow(c, i - 1)) THEN {} ELSE {"low"}) \cup
-         (IF \A i \in 1..nb : SObsEq(o.high[i], BLow(c, i)) THEN {} ELSE {"high"}) \cup
-         (IF \A i \in 1..nb : SObsEq(o.center[i], RAdd(BLow(c, i - 1), RDiv(BBinSize(c), RInt(2)))) THEN {} ELSE {"center"})
+    ELSE (IF \A i \in 1..nb : BObsEq(o.low[i], BLow(c, i - 1)) THEN {} ELSE {"low"}) \cup
+         (IF \A i \in 1..nb : BObsEq(o.high[i], BLow(c, i)) THEN {} ELSE {"high"}) \cup
+         (IF \A i \in 1..nb : BObsEq(o.center[i], RAdd(BLow(c, i - 1), RDiv(BBinSize(c), RInt(2)))) THEN {} ELSE {"center"})
 
 \* ---- equal-occupancy acceptance ---------------------------------------------------------------
 \* "consecutive sorted data": the bins, read one after the other, list every datum inside
@@ -155,9 +165,9 @@ BByNumStructFailing(c, o) ==
                       ELSE (IF \A k \in 1..(Len(all) - 1) : c.x[all[k]] <= c.x[all[k + 1]] THEN {} ELSE {"nperbin_not_consecutive_sorted"}) \cup
                            (IF ~BShapeOK(nb, {o.low, o.high}) THEN {"edges_missing_or_misshapen"}
                             ELSE (IF \A i \in 1..nb : LET P == VRange(Slice(o, i - 1))
-                                                      IN P = {} \/ SObsEq(o.low[i], RInt(SMinOf(c.x, P))) THEN {} ELSE {"nperbin_low"}) \cup
+                                                      IN P = {} \/ BObsEq(o.low[i], RInt(SMinOf(c.x, P))) THEN {} ELSE {"nperbin_low"}) \cup
                                  (IF \A i \in 1..nb : LET P == VRange(Slice(o, i - 1))
-                                                      IN P = {} \/ SObsEq(o.high[i], RInt(SMaxOf(c.x, P))) THEN {} ELSE {"nperbin_high"}))))
+                                                      IN P = {} \/ BObsEq(o.high[i], RInt(SMaxOf(c.x, P))) THEN {} ELSE {"nperbin_high"}))))
 
 \* the statistics are judged once the bins themselves are in order
 BByNumFailing(c, o) ==
